@@ -1089,9 +1089,11 @@ theorem runCall_adv (sch : SchemaEval) (t0 t : Txn) (nu nu' : Nu) (c : Call) (r 
     simp only [runCall] at hr
     split at hr
     · cases hr
-    · rename_i t nu1 hm
-      simp only [Except.ok.injEq, Prod.mk.injEq] at hr
-      exact hr.1 ▸ Txn.drop_adv hm
+    · split at hr
+      · cases hr
+      · rename_i t nu1 hm
+        simp only [Except.ok.injEq, Prod.mk.injEq] at hr
+        exact hr.1 ▸ Txn.drop_adv hm
   | dropDatabase db =>
     simp only [runCall] at hr
     split at hr
